@@ -219,7 +219,10 @@ func c09Run(cs c09Case, col *evid.Collector) {
 		return
 	}
 	// completeness only when nothing invalid sits at the lookup path
-	clean := (cs.Auth.Stmt == "" || (cs.Auth.Stmt == "X" && cs.Auth.Stored == "X") || cs.Auth.Stored == "own") &&
+	// (an authorization envelope without any signature at the lookup path makes
+	// envelope verification itself fail - "no signature found" - which is a
+	// rejection for a reason the statement does not speak about)
+	clean := (cs.Auth.Stmt == "" || (cs.Auth.Stmt == "X" && cs.Auth.Stored == "X" && len(cs.Auth.Signers) > 0) || cs.Auth.Stored == "own") &&
 		(cs.Appr.Stmt == "" || (cs.Appr.Stmt == "X" && cs.Appr.Stored == "X" && cs.Appr.Signer == "APPKEY") || (cs.Trust != "trusted" && cs.Trust != "two-apps") || cs.Appr.StoredApp != "APP")
 	if err != nil && verdict.OK && clean {
 		col.Violation("C09:valid-approvals-not-counted:"+ec, desc+" ("+err.Error()+")", cs)
